@@ -383,8 +383,11 @@ func (r *FnRun) callStatic(fr *Frame, st *State, fn *ssa.Function, args []Val, b
 		for _, p := range fn.Params {
 			names = append(names, p.Name())
 		}
-		if len(fn.Params) == 0 && fn.Signature.Recv() == nil {
-			// a function of a package whose bodies were not built
+		if len(fn.Params) == 0 {
+			// a function or method of a package whose bodies were not built
+			if fn.Signature.Recv() != nil {
+				names = append(names, "self")
+			}
 			for i := 0; i < fn.Signature.Params().Len(); i++ {
 				if n := fn.Signature.Params().At(i).Name(); n != "" && n != "_" {
 					names = append(names, n)
